@@ -38,6 +38,7 @@ func (g *FuncGen) check(st *State, kind, goal, desc string, pos token.Pos) {
 		return
 	}
 	o := g.oblige(kind, "", st.reach, goal, desc, pos)
+	o.InEntry = g.depth == 0 && g.curBlock != nil && g.curBlock.Index == 0
 	nr := g.newReach(st.reach)
 	g.assert(fmt.Sprintf("(=> %s %s)", nr, goal))
 	o.AssumeIdx = len(g.asserts) // 1-based index of the assumption that this check holds
@@ -45,6 +46,7 @@ func (g *FuncGen) check(st *State, kind, goal, desc string, pos token.Pos) {
 }
 
 func (g *FuncGen) execBlock(b *ssa.BasicBlock, st *State) error {
+	g.curBlock = b
 	for _, ins := range b.Instrs {
 		if err := g.execInstr(ins, st); err != nil {
 			return err
